@@ -239,7 +239,7 @@ pub mod verif {
     /// Native replay entry point used by /verif/replay: runs the named
     /// history interpreter on a concrete script. Oracle violations panic with
     /// the oracle's message; returns the "reached" bits otherwise.
-    pub fn replay(harness: &str, cfg: u8, props: u32, script: &[u8]) -> Option<u32> {
+    pub fn replay(harness: &str, cfg: u32, props: u32, script: &[u8]) -> Option<u32> {
         let mut s = common::ScriptSrc::new(script);
         let ok = replay_dispatch(harness, cfg, props, &mut s);
         if ok {
